@@ -10,7 +10,7 @@ PLANS = {
                        "StreamJoin/OuterJoin against a reference join, checked at every emitted watermark and at end of stream; sampling, not enumeration: "
                        "a clean batch is evidence, not proof"),
         "level_note": "trusted: reference join model, synctest quiescence on the go1.26.8 runtime, generated inputs are valid changelogs without late records",
-        "parts": [{"check": "c19", "quick": 64000, "thorough": 4000000}],
+        "parts": [{"check": "c19", "quick": 64000, "thorough": 2000000}],
         "rule": ("each run draws from its tape: join kind (inner/left/right/full), 0-2 key columns, per side a valid "
                  "changelog (watermarked or batch, retractions, duplicates) and the full message-by-message interleaving "
                  "of the two sources including which closes first; a run is non-trivial if the two scripts hold >=2 "
@@ -27,7 +27,7 @@ PLANS = {
         "level_text": ("seeded exploration of generated join queries (inner/left/right/full/lookup, 1-3 key columns, theta and WHERE conjuncts, nested third table, optimiser on/off) x "
                        "generated tables with NULL and duplicate keys x input interleavings; final consolidated output compared with a reference SQL join"),
         "level_note": "trusted: reference nested-loop join with three-valued key equality, synctest quiescence; LOOKUP JOIN has no schedule dimension (sequential) and is counted separately in probes",
-        "parts": [{"check": "c02", "quick": 40000, "thorough": 2500000}],
+        "parts": [{"check": "c02", "quick": 40000, "thorough": 1000000}],
         "rule": ("each run draws a join query shape, 2-3 tables (0..N rows, keys from {1,2,3,NULL}, duplicates likely) and the message interleaving of the table sources; "
                  "non-trivial = at least 2 input rows in total; distinct = distinct (query-shape hash, tables+schedule hash) pairs"),
         "components": {"real": ["sqlparser", "parser", "logical typecheck", "optimizer", "physical.Materialize", "nodes.StreamJoin/OuterJoin/LookupJoin/Filter/Map", "functions (=, <, >=, AND)"],
@@ -41,9 +41,9 @@ PLANS = {
                        "the printed rows must be exactly min(n, rows) rows of the reference result (multiplicities respected), in sort order and the first n of the sort order under ORDER BY"),
         "level_note": ("trusted: reference result (nested-loop join, batch grouping, distinct), decoding of the printed text for ints/NULL/identifiers; the code from sqlparser.Parse to sink.Run is RunE's own, "
                        "copied at build time by tools/mkoverlay into cmd.SimRunQuery; the schedule-free part of the statement (a single batch table) is explored too but is not what this technique adds"),
-        "parts": [{"check": "c05", "quick": 40000, "thorough": 2500000},
+        "parts": [{"check": "c05", "quick": 40000, "thorough": 1000000},
                   # the real binary (cobra, config, RunE as compiled, real csv/json files): scheduling is the OS's here - monitored, not scheduled
-                  {"check": "c05cli", "kind": "proc", "script": "c05cli.py", "quick": 640, "thorough": 40000}],
+                  {"check": "c05cli", "kind": "proc", "script": "c05cli.py", "quick": 640, "thorough": 10000}],
         "rule": ("each run draws a base query (single table, inner join, left/right/full outer join, GROUP BY with a counting trigger, DISTINCT, changelog table with retractions), a nesting "
                  "(top level, subquery, subquery + outer LIMIT, subquery LIMIT + outer ORDER BY, WITH, ORDER BY only), 0-2 sort keys with directions, n from {0,1,2,3,4,6,9,100}, one of the five output modes, "
                  "tables and the interleaving of the sources; non-trivial = at least 2 input messages; distinct = distinct (shape tuple, tables+schedule) pairs"),
@@ -59,7 +59,7 @@ PLANS = {
                        "(filter, map, distinct, simple and custom-trigger group by with every trigger combination, lookup join, order by; stream/outer join under seeded interleavings); "
                        "after every emitted record the output multiset must stay non-negative, at the end it must equal the reference operator on the consolidated input"),
         "level_note": "trusted: reference operators in /verif/sim (filter/map/distinct/group-by/join/sort written independently), expression leaves are Go closures so no SQL function semantics is on trial",
-        "parts": [{"check": "c15", "quick": 80000, "thorough": 6000000}],
+        "parts": [{"check": "c15", "quick": 80000, "thorough": 3000000}],
         "rule": ("each run draws an operator, its configuration (trigger set, sort direction, lookup table) and a valid changelog; joins additionally draw the interleaving; "
                  "non-trivial = at least 2 input messages; distinct = distinct (operator+config+script-shape hash, full script/schedule hash) pairs"),
         "components": {"real": ["nodes.Filter/Map/Distinct/SimpleGroupBy/CustomTriggerGroupBy/LookupJoin/OrderSensitiveTransform/StreamJoin/OuterJoin/EventTimeBuffer", "execution triggers", "aggregates count/sum"],
@@ -73,7 +73,7 @@ PLANS = {
                        "InternallyConsistentOutputStreamWrapper; at every forwarded watermark W the emitted records must consolidate to the input with event time <= W, "
                        "every emitted record must be one that was received (values, sign, event time; never more often), and everything must be out by end of stream"),
         "level_note": "trusted: multiset consolidation model; input changelogs are valid (no retraction of an absent row) and carry no late records",
-        "parts": [{"check": "c22", "quick": 80000, "thorough": 6000000}],
+        "parts": [{"check": "c22", "quick": 80000, "thorough": 4000000}],
         "rule": "each run draws one changelog (<=8 steps quick, <=24 thorough, value domain 1-3 so duplicates and matching retractions are common); non-trivial = >=2 messages; distinct = distinct (shape, full script) pairs",
         "components": {"real": ["stream.InternallyConsistentOutputStreamWrapper"], "stub": ["source (scripted)", "sink (collecting)"]},
         "assumptions": ["multiset model in /verif/sim/model.go"],
@@ -85,7 +85,7 @@ PLANS = {
                        "(count, sum, avg, min, max, array_agg and the _distinct variants x int/float/duration/time/any); after every step with a non-empty net multiset "
                        "Trigger() must equal the aggregate recomputed from scratch (float sums within eps*n*sum|x| of the history)"),
         "level_note": "trusted: from-scratch aggregate definitions in /verif/sim/c14.go; NaN excluded everywhere and -0.0 excluded from _distinct histories (ordering/hash agreement of those values is C09, not on trial here); float magnitudes kept below overflow",
-        "parts": [{"check": "c14", "quick": 200000, "thorough": 20000000}],
+        "parts": [{"check": "c14", "quick": 200000, "thorough": 6000000}],
         "rule": "each run draws an aggregate descriptor and a history (<=10 steps quick, <=40 thorough; retractions only of present values); non-trivial = >=2 steps; distinct = distinct (aggregate+type, full history) pairs",
         "components": {"real": ["every Prototype() in aggregates.Aggregates"], "stub": ["the group-by around the aggregate (histories are fed directly)"]},
         "assumptions": ["histories never dip below zero multiplicity (what a group-by can receive given C15)"],
@@ -99,7 +99,7 @@ PLANS = {
                        "and ON END OF STREAM alone emits every remaining key exactly once at the end"),
         "level_note": ("trusted: reference trigger model and per-key batch aggregate in /verif/sim/c17.go; the processing order behind the group-by's event-time buffer is taken from C18's buffer specification. "
                        "Deliberately not flagged: the end-of-stream flush of a counting-only group-by and redundant retract/re-emit of an unchanged result"),
-        "parts": [{"check": "c17", "quick": 120000, "thorough": 8000000}],
+        "parts": [{"check": "c17", "quick": 120000, "thorough": 4000000}],
         "rule": "each run draws a trigger configuration and an event history (<=10 events quick, <=32 thorough; late keys included at object level); non-trivial = >=2 events; distinct = distinct (config+shape, full history) pairs",
         "components": {"real": ["execution.CountingTrigger/WatermarkTrigger/EndOfStreamTrigger/MultiTrigger", "nodes.CustomTriggerGroupBy", "nodes.EventTimeBuffer", "aggregates count/sum"],
                        "stub": ["source (scripted)", "sink (collecting)"]},
@@ -111,7 +111,7 @@ PLANS = {
         "level_text": ("seeded exploration of watermarked/batch changelogs with retractions x every TRIGGER combination (COUNTING n in 1..4, ON WATERMARK, ON END OF STREAM, all subsets, and no clause) "
                        "x grouping with/without the time field x optimiser on/off, planned from SQL text by the real parser/typechecker/optimiser; consolidated output at end of stream must equal the batch grouping"),
         "level_note": "trusted: reference batch group-by (count/sum/min over non-NULL inputs, NULL for an all-NULL group); aggregates limited to count/sum/min so that the verdict is about triggers, not C14",
-        "parts": [{"check": "c16", "quick": 60000, "thorough": 4000000}],
+        "parts": [{"check": "c16", "quick": 60000, "thorough": 3000000}],
         "rule": "each run draws a trigger configuration, key shape, optimiser flag and a valid changelog (<=8 steps quick, <=24 thorough); non-trivial = >=2 messages; distinct = distinct (config+shape, full script) pairs",
         "components": {"real": ["sqlparser", "parser (ParseTrigger)", "logical.GroupBy typecheck", "optimizer", "physical.Materialize", "nodes.SimpleGroupBy/CustomTriggerGroupBy/EventTimeBuffer/Map", "triggers", "aggregates count/sum/min"],
                        "stub": ["table source (sim database, scripted)", "sink (collecting)"]},
@@ -123,7 +123,7 @@ PLANS = {
         "level_text": ("seeded exploration of time sequences (in and out of order, duplicates, off-grid milliseconds, low-weight pre-1970 times, optional source watermarks) x max_diff x resolution; "
                        "the emitted sequence of records and watermarks must equal the one a reference generator emits step by step"),
         "level_note": "trusted: reference generator in /verif/sim/c20.go (rounding down = mathematical floor to a multiple of the resolution counted from the Unix epoch)",
-        "parts": [{"check": "c20", "quick": 100000, "thorough": 8000000}],
+        "parts": [{"check": "c20", "quick": 100000, "thorough": 4000000}],
         "rule": "each run draws max_diff, resolution, epoch range and a time sequence (<=10 records quick, <=40 thorough); non-trivial = >=2 messages; distinct = distinct (config+shape, full input) pairs",
         "components": {"real": ["sqlparser/parser/typecheck of the table valued function", "table_valued_functions.MaxDiffWatermark"], "stub": ["table source (scripted)", "sink (collecting)"]},
         "assumptions": ["times within the range representable as int64 nanoseconds"],
@@ -135,7 +135,7 @@ PLANS = {
                        "simulated time and then a watermark, with round spacing = interval + stall; tumble: every record keeps its fields, sign and event time and gains an aligned window containing its time, "
                        "watermarks pass unchanged in place; range: ascending, each integer once, also when a LIMIT stops it early (by-product: no schedule or clock dimension)"),
         "level_note": "trusted: synctest fake clock; only the default 1s poll interval is reachable in this snapshot (poll_interval is declared as a DESCRIPTOR and cannot be planned), so the interval is not a simulated configuration",
-        "parts": [{"check": "c21", "quick": 30000, "thorough": 1500000}],
+        "parts": [{"check": "c21", "quick": 30000, "thorough": 2000000}],
         "rule": "each run draws one of tumble (window length, offset, changelog), range (start, end, limit) or poll (2-7 rounds of snapshots, stalls); non-trivial = >=2 messages/rounds; distinct = distinct (shape, content) pairs",
         "components": {"real": ["table_valued_functions.Tumble/Range/Poll", "planner", "nodes.Limit"], "stub": ["table sources (scripted snapshots)", "sink", "wall clock (synctest fake clock)"]},
         "assumptions": ["window lengths divide a day, so alignment does not depend on the time origin"],
@@ -147,7 +147,7 @@ PLANS = {
                        "time at or below an already emitted watermark; the real EventTimeBuffer must emit exactly the specified sequence (each record once, unchanged, event-time order with arrival-order ties, before the first watermark "
                        "at or above its time, rest at end of stream, zero-time records straight through)"),
         "level_note": "trusted: the monitors and the buffer release model in /verif/sim/c18.go; inputs carry no late records by construction",
-        "parts": [{"check": "c18", "quick": 60000, "thorough": 4000000}],
+        "parts": [{"check": "c18", "quick": 60000, "thorough": 2000000}],
         "rule": "each run draws a scenario family (buffer / single operator / join under schedule / SQL group-by / SQL pipeline) and its history; non-trivial = >=2 input messages; distinct = distinct (shape, history+schedule) pairs",
         "components": {"real": ["nodes.EventTimeBuffer", "every execution node of C15", "StreamJoin/OuterJoin", "max_diff_watermark", "tumble", "CustomTriggerGroupBy", "planner"], "stub": ["sources (scripted, gated)", "sink"]},
         "assumptions": ["a row's event time equals its time column where it has one"],
@@ -159,7 +159,7 @@ PLANS = {
                        "worker counts x gated worker/reader schedules x read-chunk patterns x buffer sizes; every source must return exactly one record per row, in file order, with the row's values"),
         "level_note": ("trusted: independent decoders (encoding/json, generator-side row lists); all rows of a file conform to one schema (schema inference is C24). Not covered: parquet (opens the file itself through a third-party ReadAt reader: no seam, no scheduling dimension); "
                        "CRLF handling of the default newline separator (bufio.ScanLines drops a trailing \\r by design)"),
-        "parts": [{"check": "c23", "quick": 12000, "thorough": 600000}, {"check": "c23stdin", "kind": "proc", "script": "c23stdin.py", "quick": 320, "thorough": 20000}],
+        "parts": [{"check": "c23", "quick": 12000, "thorough": 300000}, {"check": "c23stdin", "kind": "proc", "script": "c23stdin.py", "quick": 320, "thorough": 8000}],
         "rule": ("each run draws a source kind, a file, knobs (workers, buffer size, chunk pattern) and for JSON the release order of every gated hand-off; non-trivial = >=2 rows; "
                  "distinct = distinct (kind+size+knobs, content/schedule) pairs"),
         "components": {"real": ["datasources/json (Creator, DatasourceExecuting, worker pool via build overlay)", "datasources/csv", "datasources/lines", "execution/files.OpenLocalFile", "stdin preview/replay in the real octosql binary"],
@@ -173,8 +173,8 @@ PLANS = {
                        "a LIMIT query may succeed only with exactly the output of the fault-free twin; the fault-free configuration is run separately in 1/8 of the runs. "
                        "The process-tier part repeats the scenario family against the real octosql binary and checks the exit status and error message"),
         "level_note": "trusted: the fault-free twin run of the same code as reference for complete output; 'must consume' is decided per shape (everything except LIMIT 2 reads its inputs to the end)",
-        "parts": [{"check": "c06", "quick": 8000, "thorough": 400000, "env": {"VERIF_SHRINK_BUDGET": "120"}},
-                  {"check": "c06cli", "kind": "proc", "script": "c06cli.py", "quick": 480, "thorough": 30000}],
+        "parts": [{"check": "c06", "quick": 8000, "thorough": 100000, "env": {"VERIF_SHRINK_BUDGET": "120"}},
+                  {"check": "c06cli", "kind": "proc", "script": "c06cli.py", "quick": 480, "thorough": 6000}],
         "rule": ("each run draws source kind (json/csv/lines), one of 11 query shapes (plain, WHERE, DISTINCT, ORDER BY, GROUP BY, JOIN, IN-subquery, scalar subquery, LIMIT small/large, ORDER BY+LIMIT), "
                  "fault kind and position, faulted table (main or joined/sub), optimiser flag, worker count and line limit; distinct = distinct (shape tuple, position/knobs) pairs"),
         "components": {"real": ["planner", "datasources json/csv/lines", "execution nodes incl. Distinct/OrderSensitiveTransform/Limit/joins", "query expressions (subqueries)", "functions.panic"],
@@ -189,12 +189,12 @@ PLANS = {
                        "the stdin preview/replay reader and the real binary as a whole run in the process tier under -race with uncontrolled scheduling (monitored, not scheduled)"),
         "level_note": ("trusted: Go race detector (happens-before based, reports only races that occur in explored executions); controller gate operations are bracketed by runtime.RaceDisable/Enable so they add no happens-before edges; "
                        "ristretto cache internals are third-party threads that run for real; goroutines a query leaves behind after Run returned are drained and counted as a probe, not a violation"),
-        "parts": [{"check": "c29", "race": True, "quick": 2400, "thorough": 300000, "env": {"VERIF_SHRINK_BUDGET": "150"}},
+        "parts": [{"check": "c29", "race": True, "quick": 2400, "thorough": 20000, "env": {"VERIF_SHRINK_BUDGET": "150"}},
                   # the same scenarios on several Ps: with one P, sync.Pool hand-offs inside third-party code order the goroutines and can hide a race
-                  {"check": "c29", "tag": ".p4", "race": True, "gomaxprocs": 4, "workers": 4, "offset": 100000000, "quick": 300, "thorough": 40000, "env": {"VERIF_SHRINK_BUDGET": "150"}},
+                  {"check": "c29", "tag": ".p4", "race": True, "gomaxprocs": 4, "workers": 4, "offset": 100000000, "quick": 300, "thorough": 3000, "env": {"VERIF_SHRINK_BUDGET": "150"}},
                   # the real binary built with the race detector: stdin reader (pipe fed in chunks), file joins, LOOKUP JOIN, subqueries,
                   # LIMIT and malformed rows; the operating system schedules (monitored, not scheduled), up to 3 executions per scenario
-                  {"check": "c29cli", "kind": "proc", "script": "c29cli.py", "race_binary": True, "workers": 12, "quick": 48, "thorough": 6000, "env": {"VERIF_SHRINK_BUDGET": "0"}},
+                  {"check": "c29cli", "kind": "proc", "script": "c29cli.py", "race_binary": True, "workers": 12, "quick": 48, "thorough": 1500, "env": {"VERIF_SHRINK_BUDGET": "0"}},
                   ],
         "rule": "each run draws a scenario family and its workload, knobs and complete gate release order; non-trivial = >=2 input rows/messages; distinct = distinct (shape, schedule) pairs",
         "components": {"real": ["nodes.StreamJoin/OuterJoin input goroutines", "datasources/json reader, worker pool (overlay constructor), consumer", "functions regexp/LIKE caches (ristretto)", "planner", "Limit", "files.OpenLocalFile"],
@@ -209,7 +209,7 @@ PLANS = {
                        "after the last crash: octosql must still start, every database that resolved before must still run and answer with the previous or the new plugin version (the new one if the operation completed), "
                        "and `octosql plugin install` must bring every configured database to a runnable version"),
         "level_note": "trusted: kernel RLIMIT_FSIZE/SIGXFSZ semantics for torn writes, SIGKILL for crashes (process-kill model: the page cache survives; power-loss reordering of unsynced writes is not modelled); the HTTP transport is a file-serving stub (hook H5)",
-        "parts": [{"check": "c27", "kind": "proc", "script": "c27.py", "needs_plugin": True, "workers": 12, "quick": 228, "thorough": 20000}],
+        "parts": [{"check": "c27", "kind": "proc", "script": "c27.py", "needs_plugin": True, "workers": 12, "quick": 228, "thorough": 8000}],
         "rule": "each run draws (initial state, config, operation) = 60 templates, 1-2 crashes (point among those a clean run of the template passes, kill or tear:k); distinct = distinct (template, crash sequence) pairs",
         "components": {"real": ["octosql binary: cmd, plugins/manager, plugins/repository, archiver, plugins/executor (exec + gRPC over unix socket), test plugin built on the plugins SDK"],
                        "stub": ["HTTP transport (files)", "crash selection (hook H4 crash points read VERIF_CRASH)"]},
